@@ -16,6 +16,9 @@ CONSTANTS
   WksCheck = TRUE
   SnlClean = TRUE
   KeepDead = FALSE
+  Miu <- MiuAB
+  Lens = {0, 3, 4}
+  HdrInMiu = FALSE
 INVARIANT OneAddrPerSocket
 INVARIANT NoDoubleAlloc
 INVARIANT RangesRespected
@@ -25,4 +28,5 @@ PROPERTY ResolveRight
 PROPERTY InUseRight
 PROPERTY ConnectByName
 PROPERTY DatagramStep
+PROPERTY Delivered
 CHECK_DEADLOCK FALSE
